@@ -6,14 +6,17 @@ Driver of the C01 crash machine. One request line, one response line.
   reset <nIdx>                     fresh, created + flushed collection with <nIdx> indexes
   add <body> <keys>                keys = "ix:key,ix:key" | "-"      → ok <id> | err:…
   update <id> <body> <patch>       patch = "ix=k/k,ix=" | "-"        → ok | err:…
+  saveext <n>                      save_extension (metadata-only write) → ok | err:…
   remove <id>                                                        → ok none | ok doc <body> <keys> | err:…
   flush <now> | close <now> | reopen <now>                           → ok true|false / ok / err:…
   arm crash|fail|unknown <n>       the (n+1)-th coming backend mutation gets that outcome
   disarm
+  poweroff                         the power failed on a backend call the model abstracts away
   get <id>                         → ok doc <body> <keys> | err:notfound | …
   ids                              → ids <csv>
   ix <ix> <key>                    → ix <csv>        (ids posted under that key, in memory)
   log                              → landed backend mutations since the previous `log`, `;`-separated
+  state                            → stored document ids, number of intent objects, checkpoint, max_document_id
   dur                              → durable summary (debug)
   consts
 -/
@@ -40,8 +43,10 @@ def parseRepl (s : String) : Option (Nat × List Nat) :=
 def parsePatch (s : String) : Option (List (Nat × List Nat)) :=
   if s = "-" ∨ s = "" then some [] else (s.splitOn ",").mapM parseRepl
 
+def keyLe (a b : Nat × Nat) : Bool := a.1 < b.1 || (a.1 == b.1 && a.2 ≤ b.2)
+
 def showKeys (ks : List (Nat × Nat)) : String :=
-  if ks.isEmpty then "-" else ",".intercalate (ks.map (fun k => s!"{k.1}:{k.2}"))
+  if ks.isEmpty then "-" else ",".intercalate ((ks.mergeSort keyLe).eraseDups.map (fun k => s!"{k.1}:{k.2}"))
 
 def showOut : Out → String
   | .okId id => s!"ok {id}"
@@ -50,17 +55,17 @@ def showOut : Out → String
   | .okDoc none => "ok none"
   | .okDoc (some d) => s!"ok doc {d.body} {showKeys d.keys}"
   | .errIo => "err:io"
+  | .errPre => "err:precond"
   | .errState => "err:state"
   | .errNotFound => "err:notfound"
   | .errExists => "err:exists"
-  | .errInvalid => "err:invalid"
   | .errNoHandle => "err:nohandle"
 
 def showEv : Ev → String
   | .wm t => s!"wm {t}"
   | .doc id => s!"doc {id}"
   | .del id => s!"del {id}"
-  | .intentPut id => s!"intent+ {id}"
+  | .intentPut _ => "intent+"
   | .intentDel => "intent-"
   | .ixc ix => s!"ixc {ix}"
   | .metaPut => "meta"
@@ -84,9 +89,7 @@ def doStep (s : State) (op : Op) : State × String :=
 
 def handle (s : State) (line : String) : State × String :=
   match words line with
-  | ["reset", n] => match n.toNat? with
-    | some n => (init n, "ok")
-    | none => (s, "err:parse")
+  | ["reset", _] => (init, "ok")
   | ["consts"] => (s, s!"STRIDE={stride}")
   | ["add", b, ks] => match b.toNat?, parseKeys ks with
     | some b, some ks => doStep s (.add { body := b, keys := ks })
@@ -94,6 +97,7 @@ def handle (s : State) (line : String) : State × String :=
   | ["update", id, b, p] => match id.toNat?, b.toNat?, parsePatch p with
     | some id, some b, some p => doStep s (.update id { body := b, repl := p })
     | _, _, _ => (s, "err:parse")
+  | ["saveext", _] => doStep s .saveExt
   | ["remove", id] => match id.toNat? with
     | some id => doStep s (.remove id)
     | none => (s, "err:parse")
@@ -110,6 +114,7 @@ def handle (s : State) (line : String) : State × String :=
     | some k, some n => doStep s (.arm (List.replicate n .ok ++ [k]))
     | _, _ => (s, "err:parse")
   | ["disarm"] => doStep s (.arm [])
+  | ["poweroff"] => ({ s with w := { s.w with off := true, sched := [] } }, "ok")
   | ["get", id] => match id.toNat? with
     | some id => (s, showOut (s.get id))
     | none => (s, "err:parse")
@@ -123,6 +128,12 @@ def handle (s : State) (line : String) : State × String :=
   | ["log"] =>
     ({ s with w := { s.w with log := [] } },
      if s.w.log.isEmpty then "-" else ";".intercalate (s.w.log.map showEv))
+  | ["state"] =>
+    -- what the harness can read back from the backend and the handle after a reopen
+    let D := s.w.D
+    let b := bound s
+    let mx := match s.h with | some v => toString v.maxId | none => "-"
+    (s, s!"state docs={showNats ((List.range b).filter (fun i => (D.docs i).isSome))} intents={D.intents.length} cp={D.cp} maxid={mx}")
   | ["dur"] =>
     let D := s.w.D
     let b := bound s
@@ -131,4 +142,4 @@ def handle (s : State) (line : String) : State × String :=
 
 end AndaVerif.DrvC01
 
-def main : IO Unit := AndaVerif.Drv.lineLoop (AndaVerif.Durability.init 2) AndaVerif.DrvC01.handle
+def main : IO Unit := AndaVerif.Drv.lineLoop AndaVerif.Durability.init AndaVerif.DrvC01.handle
